@@ -129,7 +129,10 @@ func IndexFromFile(ctx context.Context,
 	// from their bucket before moving on to the next. It's possible that a worker
 	// reaches the end of the stream before the following worker does (eof=true),
 	// don't advance to the next worker in that case.
-	for _, w := range worker {
+	// A worker that found its neighbor stopped with an empty bucket skips over
+	// it and syncs with a later one, so follow the chain of workers that were
+	// actually synced with rather than the order they were started in.
+	for w := worker[0]; w != nil; w = w.next {
 		for chunk := range w.results {
 			verifYield("pchunk.collect")
 			// Assemble the list of chunks in the index
